@@ -185,6 +185,9 @@ def history(job):
         results_undefined = last_search is not None
         continue
       got = call(mm, op)
+      if got == ('err', 'RealCodeTimeout'):
+        out['steps'].append({'op': op, 'got': got, 'want': ('ok', 'an answer'), 'params_same': True, 'frame_same': True})
+        break      # a call that does not come back is a failure whatever a fresh object does
       fresh_mm, _, _, _ = build(inst, {k: v for k, v in cur_resolved.items() if v is not None})
       if op[0] == 'results':
         want = last_search if last_search is not None else call(fresh_mm, op)
